@@ -88,21 +88,27 @@ impl Prop for C05 {
             1 => {
                 let run = run_scripted(Box::new(responder), || quake::one::query(&addr, None));
                 if sample {
-                    crate::realnet::fidelity("C05", Proto::Udp, make, &run, 1000, |a, t| quake::one::query(&a, t), &FIDELITY);
+                    if let Some(real) = crate::realnet::fidelity("C05", Proto::Udp, make, &run, 1000, |a, t| quake::one::query(&a, t), &FIDELITY) {
+                        o.fail(format!("C05|real sockets|C05|differs from the scripted transport|{real}"), serde_json::json!({"over_real_loopback_sockets": real, "scripted_transport": "Ok (equal to the reference value)"}));
+                    }
                 }
                 expect_equal("C05", &entry, &run, &st.expected_one(), &["unused_entries"])
             }
             2 => {
                 let run = run_scripted(Box::new(responder), || quake::two::query(&addr, None));
                 if sample {
-                    crate::realnet::fidelity("C05", Proto::Udp, make, &run, 1000, |a, t| quake::two::query(&a, t), &FIDELITY);
+                    if let Some(real) = crate::realnet::fidelity("C05", Proto::Udp, make, &run, 1000, |a, t| quake::two::query(&a, t), &FIDELITY) {
+                        o.fail(format!("C05|real sockets|C05|differs from the scripted transport|{real}"), serde_json::json!({"over_real_loopback_sockets": real, "scripted_transport": "Ok (equal to the reference value)"}));
+                    }
                 }
                 expect_equal("C05", &entry, &run, &st.expected_two(), &["unused_entries"])
             }
             _ => {
                 let run = run_scripted(Box::new(responder), || quake::three::query(&addr, None));
                 if sample {
-                    crate::realnet::fidelity("C05", Proto::Udp, make, &run, 1000, |a, t| quake::three::query(&a, t), &FIDELITY);
+                    if let Some(real) = crate::realnet::fidelity("C05", Proto::Udp, make, &run, 1000, |a, t| quake::three::query(&a, t), &FIDELITY) {
+                        o.fail(format!("C05|real sockets|C05|differs from the scripted transport|{real}"), serde_json::json!({"over_real_loopback_sockets": real, "scripted_transport": "Ok (equal to the reference value)"}));
+                    }
                 }
                 expect_equal("C05", &entry, &run, &st.expected_two(), &["unused_entries"])
             }
